@@ -164,6 +164,67 @@ fn chain_cfg(name: String, n: u32, watchers: bool) -> Config
 
 //-------------------------------------------------------------------------------------------------------------------
 
+/// Histories of reactors that come and go: register new reactors (every mode, or one-off reactors) with bundles that
+/// include empty, despawn and duplicate triggers, revoke, fire, despawn trigger entities, collect garbage, poll.
+fn life_cfg(name: String, is7: bool, d: u32) -> Config
+{
+                let mut c = Config::base(&name);
+                c.actors = vec![Variant::Plain];
+                c.n_ents = 2;
+                let bundles = vec![
+                    Bundle::EMPTY,
+                    Bundle::one(Trig::Broadcast(Ev::A)),
+                    Bundle::one(Trig::EntityEvent(Ev::A, 0)),
+                    Bundle::one(Trig::Despawn(0)),
+                    Bundle::two(Trig::Despawn(0), Trig::Despawn(1)),
+                    Bundle::two(Trig::EntityEvent(Ev::A, 0), Trig::Despawn(1)),
+                    Bundle::two(Trig::Broadcast(Ev::A), Trig::ResMut),
+                    // the same trigger twice in one bundle: two registrations, one token names both
+                    Bundle::three(Trig::Broadcast(Ev::A), Trig::ResMut, Trig::Broadcast(Ev::A)),
+                ];
+                c.top = Arc::new(move |i: &DynInfo| {
+                    let mut v = Vec::new();
+                    if i.n_actors < 3
+                    {
+                        for b in bundles.iter()
+                        {
+                            if is7
+                            {
+                                for m in [Mode::Persistent, Mode::Cleanup, Mode::Revokable] { v.push(Op::RegisterNew(Variant::Plain, *b, m)); }
+                            }
+                            else { v.push(Op::Once(Variant::Plain, *b)); }
+                        }
+                    }
+                    for k in i.ready_tokens() { v.push(Op::Revoke(k)); }
+                    // a reactor despawned by hand: its handles become stale entries of the auto-despawn channel
+                    if is7 { for a in i.ready_actors() { if a != 0 { v.push(Op::DespawnSys(a)); } } }
+                    v.push(Op::Broadcast(Ev::A));
+                    v.push(Op::EntityEvent(Ev::A, 0));
+                    v.push(Op::ResMutate(How::GetMut));
+                    v.push(Op::Despawn(0));
+                    v.push(Op::Despawn(1));
+                    v.push(Op::Gc);
+                    v.push(Op::Poll);
+                    v.push(Op::Run(0));
+                    v
+                });
+                // new reactors (and actor 0) fire triggers from inside their runs (self-triggering, nested, several
+                // triggers in one tree)
+                c.script = Arc::new(move |_i: &DynInfo| {
+                    let mut v = vec![Op::Broadcast(Ev::A), Op::EntityEvent(Ev::A, 0), Op::Despawn(0), Op::ResMutate(How::GetMut)];
+                    // a (despawn) reactor that despawns the other watched entity and then runs another system: the
+                    // second despawn is detected while the reactor is still executing
+                    if is7 { v.push(Op::Despawn(1)); v.push(Op::Run(0)); }
+                    v
+                });
+                c.max_top = d;
+                c.budget = d + 1;
+                c.max_per_run = 2;
+                c.final_gc = true;
+                c.max_runs = 200;
+                c
+}
+
 fn item(cfg: Config, series: &str, bound: &str) -> PlanItem
 {
     PlanItem{ cfg: Arc::new(cfg), bound: bound.to_string(), series: series.to_string() }
@@ -520,6 +581,13 @@ pub fn plan(property: &str, tier: Tier) -> Option<Plan>
                 c.max_runs = 300;
                 c.sym_actors = vec![];
                 items.push(item(c, "owned", &format!("N={n}")));
+            }
+            // one-off reactors (their wrapper runs, despawns itself and revokes its own token inside the tree), with
+            // bundles whose triggers can fire together
+            let ds: &[u32] = if q { &[4] } else { &[4, 5] };
+            for &d in ds
+            {
+                items.push(item(life_cfg(format!("C11/once-life/D{d}"), false, d), "once-life", &format!("D={d}")));
             }
             reports = vec!["C11"];
             rule = "every quiescent point of runner-core and kind-rich programs (aborted, postponed, discarded and \
@@ -1076,6 +1144,11 @@ pub fn plan(property: &str, tier: Tier) -> Option<Plan>
             let ds: &[u32] = if q { &[4] } else { &[4, 5, 6] };
             for &d in ds
             {
+                items.push(item(life_cfg(format!("{property}/life/D{d}"), is7, d), "life", &format!("D={d}")));
+            }
+            #[cfg(any())]
+            for &d in ds
+            {
                 let mut c = Config::base(&format!("{property}/life/D{d}"));
                 c.actors = vec![Variant::Plain];
                 c.n_ents = 2;
@@ -1366,15 +1439,19 @@ pub fn plan(property: &str, tier: Tier) -> Option<Plan>
                 c.single_route = single_route;
                 c.actors = vec![Variant::Plain, Variant::Plain];
                 c.n_ents = 2;
+                c.actors = vec![Variant::Plain, Variant::Plain, Variant::Plain];
                 c.setup = vec![
                     Op::Insert(Comp::A, 0, 0),
+                    // a probe reactor registered ahead of the main probe; the alphabet can despawn its system while its
+                    // registrations stay in the tables
+                    Op::Register(2, Bundle::three(Trig::Insertion(Comp::A), Trig::Mutation(Comp::A), Trig::ResMut), Mode::Persistent),
                     Op::Register(1, Bundle::three(Trig::Insertion(Comp::A), Trig::Mutation(Comp::A), Trig::ResMut), Mode::Persistent),
                     Op::Register(1, Bundle::two(Trig::EntityMutation(Comp::A, 0), Trig::EntityInsertion(Comp::A, 1)), Mode::Persistent),
                 ];
                 c.fixed_top = vec![Op::Run(0)];
                 let alpha: AlphabetFn = Arc::new(|i: &DynInfo| {
-                    // the probe reactor (actor 1) does nothing
-                    if let Where::Script(r, _) = i.at { if r.actor == 1 { return Vec::new(); } }
+                    // the probe reactors (actors 1 and 2) do nothing
+                    if let Where::Script(r, _) = i.at { if r.actor != 0 { return Vec::new(); } }
                     let mut v = Vec::new();
                     for e in 0..2u8
                     {
@@ -1401,10 +1478,12 @@ pub fn plan(property: &str, tier: Tier) -> Option<Plan>
                     v.push(Op::Despawn(0));
                     v.push(Op::RemoveComp(Comp::A, 0));
                     v.push(Op::Run(0));
+                    v.push(Op::DespawnSys(2));
                     v
                 });
                 c.script = alpha.clone();
                 c.top = alpha;
+                c.sym_actors = vec![];
                 c.max_top = 1;
                 c.budget = n;
                 c.max_per_run = 3;
